@@ -105,3 +105,4 @@ def check(ctx):
     taken_waiter_is_woken(ctx, only=r"sync::(mpsc|spsc)::InnerQueue\.(to_wake|wait_co)$")
     ctx.import_rules("C07", r"^(mpsc|spsc|mpmc)/(starts-|drop-|clone-|send-|endpoint-|last-|only-last)|^spsc-(blocker|park)/")
     ctx.import_rules("C02", r"^atomic-option/")
+    ctx.import_rules("C07", r"^mpmc/try_recv/")
